@@ -329,29 +329,20 @@ where
     }
 
     fn _set_extension(&mut self, extension: &[u8]) -> bool {
-        if self.file_stem().is_none() {
-            return false;
-        }
+        let file_stem = match self.file_stem() {
+            None => return false,
+            Some(f) => f,
+        };
 
-        let old_ext_len = self.extension().map(|ext| ext.len()).unwrap_or(0);
-
-        // Truncate to remove the extension
-        if old_ext_len > 0 {
-            self.inner.truncate(self.inner.len() - old_ext_len);
-
-            // If we end with a '.' now from the previous extension, remove that too
-            if self.inner.last() == Some(&b'.') {
-                self.inner.pop();
-            }
-        }
+        // Truncate until right after the file stem, which also drops anything that trails the
+        // file name (separators, current directory segments)
+        let end_file_stem = file_stem[file_stem.len()..].as_ptr() as usize;
+        let start = self.inner.as_ptr() as usize;
+        self.inner.truncate(end_file_stem.wrapping_sub(start));
 
         // Add the new extension if it exists
         if !extension.is_empty() {
-            // Add a '.' at the end prior to adding the extension
-            if self.inner.last() != Some(&b'.') {
-                self.inner.push(b'.');
-            }
-
+            self.inner.push(b'.');
             self.inner.extend_from_slice(extension);
         }
 
